@@ -24,6 +24,16 @@ CHECKS["C01"] = ("model_checking",
          "Expected behaviour of every generated program comes from CSem.tla inside TLC (integer operators/conversions/promotions, bit-fields, arrays, pointers, structs, control flow, calls). The IL cproc prints is executed by QbeMachine.tla (memory-safety of every load/store checked) for a sample and natively through il2c+ASan for all; OpCases.tla covers every operator x integer type pair x boundary value pair with defined behaviour.",
          "trusted: TLC; il2c.py+gcc for volume (cross-checked against QbeMachine.tla on the sampled programs every run); the spec is audited by gcc and clang -fsanitize=undefined on rendered programs (disagreement = machinery error). Floating point, unions, goto, varargs, long double are outside MiniC.",
          "DESIGN.md §5 C01")
+CHECKS["C07"] = ("model_checking",
+         "TLA+ refinement of init.c's cursor machine and qbe.c's data/automatic emitters against a declarative C11 6.7.9 image (Init.tla); exhaustive initializer token sequences replayed into cproc-qbe; H5 trace validation (Trace_Init.tla)",
+         "For 18 declared types and every initializer of <= 6 (quick) / <= 8 (thorough) tokens over {value, 2 strings, {, }, {}, .m, [i]} plus sampled 12-token ones, TLC checks that the implementation-shaped model (deviations off) produces the C11 image through EmitData and FuncInit; every valid initializer is compiled by the real cproc-qbe as a static object (size, align, bytes, relocations compared) and as an automatic object (IL executed via il2c, member bits compared); every initadd event of real executions (corpus, own sources, generated inputs) must be a step of the spec's InitAdd.",
+         "trusted: TLC, ilparse, il2c+gcc for the automatic half, gcc as auditor of the spec on every case. x86_64-sysv only; small value/address universes; no float/_Alignas/thread members; union re-initialisation bits on which two readings differ are unconstrained; known code defects carried as named deviations (known findings).",
+         "DESIGN.md §5 C07")
+CHECKS["C14"] = ("model_checking",
+         "TLA+ declarative literal semantics (Lit.tla) plus refinement-checked model of scan.c/expr.c/utf.c decode/encode; TLC-generated literals replayed into cproc-qbe for all three targets",
+         "Lit.tla defines element type, length and code units of every character constant and (concatenated) string literal per target; TLC checks on ~47k (quick) / 98k (thorough) exhaustive boundary cases that the transcription of the decoder/encoders with deviations off refines it and emits every case plus random literals (-simulate); each is compiled by the real cproc-qbe and its data compared byte for byte, rejects must exit 1 with a diagnostic, accepted cases re-run under ASan/UBSan.",
+         "trusted: TLC, ilparse, the C11 reading in Decl (audited on every accepted case against gcc and clang --target, sampled rejects). Implementation-defined classes (multi-char constants, mixed wide prefixes, UCNs) excluded as unspec. Literals observed through static initialisers, sizeof and _Generic only.",
+         "DESIGN.md §5 C14")
 NOT_YET = {}
 
 def main():
